@@ -12,14 +12,25 @@ carried in a mutable result, no per-file reset of a reused object.
              a different value for a setting already made (in this or an earlier file) is an error
   ignored line ↦ nothing
 
-The *token-level* grammar of a single line (how a line splits into fields, what a key may look
-like, the order in which a benchmark line's errors are reported) is shared with the model
-(`Fmt.splitField`, `Fmt.parseKeyValueLine`, `Fmt.parseBenchmarkLine`, `Fmt.unitFields`): it is
-tied to the code by the correspondence run, and number/unit conversion is the subject of C03/C04.
-What this file specifies independently — and what `C02.reader_refines_spec` proves the model
-against — is everything *between* lines: splitting, numbering, classification, scoping of
-configuration and unit metadata, the order of records, and (for several files) labels and
-the absence of leaks.
+The grammar of a single line is specified here too, declaratively and without reference to the
+reader's scanning algorithms (`Fmt.splitField` with its ASCII bit-mask fast path and rune slow
+path, `Fmt.parseKeyValueLine`, `Fmt.parseBenchmarkLine`, `Fmt.parseUnitLine`):
+
+  a line is a sequence of runes (UTF-8, an undecodable byte is a rune U+FFFD of its own);
+  the *pieces* of a line are what lies between its white-space runes; its *fields* are the
+  non-empty pieces;
+  key/value line : the runes before the first `:` form the key — at least one, the first a
+      lower-case letter, none white space or upper case; the value is what follows the colon,
+      either nothing or, after at least one blank or tab, the rest (leading blanks/tabs dropped);
+  benchmark line : `Benchmark`, then the first piece is the name (possibly empty); if there is
+      no white space at all the line is just an announcement and is ignored; the fields after
+      the name are the iteration count and then value/unit pairs, errors reported left to right;
+  unit line      : the first piece is exactly `Unit`; the fields after it are the unit and then
+      `key=value` settings (key non-empty, split at the first `=`).
+
+Shared with the model are only data types (`Val`, `UnitMeta`, `BenchOut`, …), `decodeRune`, the
+parameters (`Oracles`: Unicode predicates, number parsers, unit tidying — see C03/C04) and the
+texts of the error messages. `C02.reader_refines_spec` proves the model reader against all of it.
 
 Core Lean only.
 -/
@@ -62,20 +73,123 @@ def lines (text : Bytes) : List Bytes :=
   let ps := splitLF text
   (if ps.getLast? == some [] then ps.dropLast else ps).map stripCR
 
-/-! ### Classification -/
+/-! ### Runes, pieces, fields -/
 
-inductive Kind where
-  | bench | unit | kv | ignored
-  deriving Repr, DecidableEq
+/-- a rune of a line with the bytes that encode it -/
+abbrev RuneB := Nat × Bytes
 
-/-- What kind of line is this? A line that is nothing but `Benchmark<name>` is ignored
-(`go test -v` prints it when a benchmark starts). -/
-def classify (O : Oracles) (line : Bytes) : Kind :=
-  if Bytes.hasPrefix line benchmarkPrefix then
-    (if parseBenchmarkLine O line = .skip then .ignored else .bench)
-  else if (isUnitLine O.uc line).isSome then .unit
-  else if (parseKeyValueLine O.uc line).isSome then .kv
-  else .ignored
+/-- The runes of a byte string, left to right; `skip` bytes still belong to the previous rune.
+An undecodable byte is the rune U+FFFD, one byte wide. -/
+def runesFrom : Nat → Bytes → List RuneB
+  | _, [] => []
+  | k + 1, _ :: rest => runesFrom k rest
+  | 0, c :: rest =>
+    let d := decodeRune (c :: rest)
+    (d.1, (c :: rest).take d.2) :: runesFrom (d.2 - 1) rest
+
+def runes (x : Bytes) : List RuneB := runesFrom 0 x
+
+/-- back to bytes -/
+def enc (rs : List RuneB) : Bytes := rs.flatMap (·.2)
+
+def isSp (uc : UC) (r : RuneB) : Bool := uc.space r.1
+
+/-- Split at every separator rune (always at least one, possibly empty, piece). -/
+def splitAtSep (sp : RuneB → Bool) : List RuneB → List (List RuneB)
+  | [] => [[]]
+  | r :: rs =>
+    if sp r then [] :: splitAtSep sp rs
+    else match splitAtSep sp rs with
+      | w :: ws => (r :: w) :: ws
+      | [] => [[r]]
+
+/-- The first piece of a line (possibly empty), whether any white space follows it, and the
+fields (non-empty pieces) after it. -/
+def firstAndFields (uc : UC) (x : Bytes) : Bytes × Bool × List Bytes :=
+  match splitAtSep (isSp uc) (runes x) with
+  | [] => ([], false, [])
+  | p0 :: later => (enc p0, !later.isEmpty, (later.filter (fun p => !p.isEmpty)).map enc)
+
+/-! ### Key/value lines -/
+
+def isColon (r : RuneB) : Bool := r.1 == 58
+
+def isBlankByte (c : UInt8) : Bool := c == 32 || c == 9
+
+/-- `key: value` → (key, value); `none` if the line is not of that shape. -/
+def kvLine (uc : UC) (line : Bytes) : Option (Bytes × Bytes) :=
+  let rs := runes line
+  let key := rs.takeWhile (fun r => !isColon r)
+  match rs.dropWhile (fun r => !isColon r) with
+  | [] => none                                             -- no colon
+  | _ :: after =>
+    match key with
+    | [] => none                                           -- nothing before the colon
+    | k0 :: _ =>
+      if uc.lower k0.1 && key.all (fun r => !uc.space r.1 && !uc.upper r.1) then
+        match enc after with
+        | [] => some (enc key, [])                         -- `key:` — value omitted
+        | c :: v =>
+          if isBlankByte c then some (enc key, (c :: v).dropWhile isBlankByte) else none
+      else none
+
+/-! ### Benchmark lines -/
+
+def msgMissingIters : Bytes := str "missing iteration count"
+def msgMissingMeasurements : Bytes := str "missing measurements"
+def msgMissingUnits : Bytes := str "missing units"
+def msgMissingUnit : Bytes := str "missing unit"
+def msgExpectedKV : Bytes := str "expected key=value"
+
+/-- A measurement is reported in its base unit; the written value and unit are kept exactly
+when the unit changed. -/
+def mkVal (O : Oracles) (x : UInt64) (u : Bytes) : Val :=
+  if (O.tidy x u).2 == u then { value := x, unit := u, origValue := 0, origUnit := [] }
+  else { value := (O.tidy x u).1, unit := (O.tidy x u).2, origValue := x, origUnit := u }
+
+/-- value/unit pairs, left to right; the first thing wrong is what is reported -/
+def measurements (O : Oracles) : List Bytes → Except Bytes (List Val)
+  | [] => .ok []
+  | [v] =>
+    match O.atof v with
+    | .error e => .error (e.msg "parsing measurement: ")
+    | .ok _ => .error msgMissingUnits
+  | v :: u :: rest =>
+    match O.atof v with
+    | .error e => .error (e.msg "parsing measurement: ")
+    | .ok x =>
+      match measurements O rest with
+      | .error m => .error m
+      | .ok vs => .ok (mkVal O x u :: vs)
+
+/-- A line that starts with `Benchmark`. -/
+def benchLine (O : Oracles) (line : Bytes) : BenchOut :=
+  match firstAndFields O.uc (line.drop 9) with
+  | (_, false, _) => .skip                                 -- no white space: an announcement
+  | (_, true, []) => .err msgMissingIters
+  | (name, true, it :: ms) =>
+    match O.atoi it with
+    | .error e => .err (e.msg "parsing iteration count: ")
+    | .ok n =>
+      if ms.isEmpty then .err msgMissingMeasurements
+      else match measurements O ms with
+        | .error m => .err m
+        | .ok vs => .ok name n vs
+
+/-! ### Unit lines -/
+
+/-- The fields after `Unit`, if `Unit` is the line's first piece. -/
+def unitLine (uc : UC) (line : Bytes) : Option (List Bytes) :=
+  match firstAndFields uc line with
+  | (first, _, fields) => if first == unitPrefix then some fields else none
+
+/-- `key=value`: split at the first `=`, the key must not be empty. -/
+def unitKV (f : Bytes) : Option (Bytes × Bytes) :=
+  match f.dropWhile (fun c => !(c == 61)) with
+  | [] => none
+  | _ :: v =>
+    let key := f.takeWhile (fun c => !(c == 61))
+    if key.isEmpty then none else some (key, v)
 
 /-! ### Records -/
 
@@ -99,6 +213,47 @@ def ofRecNoResult : Rec → SRec
   | .unit u => .unit u
   | .result r => .result ⟨[], r.name, r.iters, r.values, r.fileName, r.line⟩
 
+/-- One `key=value` field of a unit line against the metadata known so far: a new setting is
+recorded and reported; a repeated identical setting is silent; a different value for a setting
+already made is an error and changes nothing. -/
+def unitStep (fileName : Bytes) (n : Nat) (unit tidyUnit : Bytes) (st : UnitMap × List SRec)
+    (f : Bytes) : UnitMap × List SRec :=
+  match unitKV f with
+  | none => (st.1, st.2 ++ [.err ⟨fileName, n, msgExpectedKV⟩])
+  | some (k, v) =>
+    match st.1.get tidyUnit k with
+    | some have_ =>
+      if have_.value == v then st
+      else (st.1, st.2 ++ [.err ⟨fileName, n,
+              str "metadata " ++ k ++ str " of unit " ++ unit ++ str " already set to " ++ have_.value⟩])
+    | none =>
+      let md : UnitMeta := ⟨tidyUnit, k, unit, v, fileName, n⟩
+      (st.1 ++ [md], st.2 ++ [.unit md])
+
+/-- The records of a unit line whose fields after `Unit` are `toks`. Metadata is filed under
+the unit's base form. -/
+def unitRecs (O : Oracles) (fileName : Bytes) (n : Nat) (units : UnitMap) (toks : List Bytes) :
+    UnitMap × List SRec :=
+  match toks with
+  | [] => (units, [.err ⟨fileName, n, msgMissingUnit⟩])
+  | unit :: kvs =>
+    kvs.foldl (unitStep fileName n unit (O.tidy 0x3FF0000000000000 unit).2) (units, [])
+
+/-! ### Classification -/
+
+inductive Kind where
+  | bench | unit | kv | ignored
+  deriving Repr, DecidableEq
+
+/-- What kind of line is this? A line that is nothing but `Benchmark<name>` is ignored
+(`go test -v` prints it when a benchmark starts). -/
+def classify (O : Oracles) (line : Bytes) : Kind :=
+  if Bytes.hasPrefix line benchmarkPrefix then
+    (if benchLine O line = .skip then .ignored else .bench)
+  else if (unitLine O.uc line).isSome then .unit
+  else if (kvLine O.uc line).isSome then .kv
+  else .ignored
+
 /-- What line number `n` with content `line` contributes, given the configuration and the unit
 metadata in force before it. -/
 def lineRecs (O : Oracles) (fileName : Bytes) (cfg : CMap) (units : UnitMap) (n : Nat)
@@ -106,19 +261,19 @@ def lineRecs (O : Oracles) (fileName : Bytes) (cfg : CMap) (units : UnitMap) (n 
   match classify O line with
   | .ignored => (cfg, units, [])
   | .kv =>
-    match parseKeyValueLine O.uc line with
+    match kvLine O.uc line with
     | some (k, v) => (cfg.assign k v true, units, [])
     | none => (cfg, units, [])
   | .bench =>
-    match parseBenchmarkLine O line with
+    match benchLine O line with
     | .ok name iters vals => (cfg, units, [.result ⟨cfg, name, iters, vals, fileName, n⟩])
     | .err m => (cfg, units, [.err ⟨fileName, n, m⟩])
     | .skip => (cfg, units, [])
   | .unit =>
-    match isUnitLine O.uc line with
-    | some rest =>
-      let (units', q) := parseUnitLine O fileName n units rest
-      (cfg, units', q.map ofRecNoResult)
+    match unitLine O.uc line with
+    | some toks =>
+      let r := unitRecs O fileName n units toks
+      (cfg, r.1, r.2)
     | none => (cfg, units, [])
 
 /-- Lines `n, n+1, …` -/
@@ -137,6 +292,32 @@ def displayName (fileName : Bytes) : Bytes := if fileName.isEmpty then str "<unk
 def read (O : Oracles) (fileName : Bytes) (labels : CMap) (units : UnitMap) (text : Bytes) :
     List SRec × UnitMap :=
   readFrom O (displayName fileName) labels units 1 (lines text)
+
+/-! ### The line-length limit -/
+
+/-- A line (LF-free run, a CR before the LF included) of this many bytes or more cannot be read. -/
+def lineLimit : Nat := 65536
+
+def rawPieces (text : Bytes) : List Bytes :=
+  let ps := splitLF text
+  if ps.getLast? == some [] then ps.dropLast else ps
+
+/-- The lines up to the first over-long one, and whether there is an over-long one. -/
+def linesLimited (text : Bytes) : List Bytes × Bool :=
+  let ps := rawPieces text
+  ((ps.takeWhile (fun p => p.length < lineLimit)).map stripCR, ps.any (fun p => lineLimit ≤ p.length))
+
+/-- what the reader reports when it gives up: `file:lines-read: bufio.Scanner: token too long` -/
+def tooLong (fileName : Bytes) (linesRead : Nat) : Bytes :=
+  fileName ++ [58] ++ decimal linesRead ++ str ": bufio.Scanner: token too long"
+
+/-- `read` with the limit: the records of the lines before the first over-long line, the unit
+metadata, and the fatal error if there is an over-long line. -/
+def readLimited (O : Oracles) (fileName : Bytes) (labels : CMap) (units : UnitMap) (text : Bytes) :
+    List SRec × UnitMap × Option Bytes :=
+  let ls := linesLimited text
+  let r := readFrom O (displayName fileName) labels units 1 ls.1
+  (r.1, r.2, if ls.2 then some (tooLong (displayName fileName) ls.1.length) else none)
 
 /-! ### Several files -/
 
@@ -192,5 +373,27 @@ def readFiles (O : Oracles) (fs : FS) : UnitMap → Bytes → List (Bytes × Byt
       let (q, units') := read O path (CMap.assign [] dotFile label false) units text
       let out := readFiles O fs units' (if isStdin then [] else stdin) rest
       { out with recs := q ++ out.recs, results := (q.filter SRec.isResult).length :: out.results }
+
+structure FilesSpecLim where
+  recs : List SRec
+  failed : Option Bytes
+  ioErr : Option Bytes
+  units : UnitMap
+  results : List Nat
+  deriving Repr
+
+/-- `readFiles` with the limit: an over-long line ends the whole run after the records before it. -/
+def readFilesLimited (O : Oracles) (fs : FS) : UnitMap → Bytes → List (Bytes × Bytes × Bool) → FilesSpecLim
+  | units, _, [] => ⟨[], none, none, units, []⟩
+  | units, stdin, (label, path, isStdin) :: rest =>
+    match (if isStdin then some stdin else fs.open path) with
+    | none => ⟨[], some path, none, units, []⟩
+    | some text =>
+      let r := readLimited O path (CMap.assign [] dotFile label false) units text
+      match r.2.2 with
+      | some e => ⟨r.1, none, some e, r.2.1, [(r.1.filter SRec.isResult).length]⟩
+      | none =>
+        let out := readFilesLimited O fs r.2.1 (if isStdin then [] else stdin) rest
+        { out with recs := r.1 ++ out.recs, results := (r.1.filter SRec.isResult).length :: out.results }
 
 end Spec.Format
